@@ -13,7 +13,7 @@ import ZChain.Model.Provider
 `alloc <client> <b1> <b2> <offer>`                        → `ok` | `fail`
 `payfees`                                                 → `rewarded-dead=`  (real payFees dry run: no dead node may change)
 `dump`                                                    → canonical state
-status: `ok` | `fail:<class>` | `reject` | `panic`; leaf diff: sorted `+name` created, `-name` deleted, `~name` changed. -/
+status: `ok` | `fail:<class>` | `reject` (the Go side also answers `panic` when the contract call kills the process); leaf diff: sorted `+name` created, `-name` deleted, `~name` changed. -/
 namespace ZChain.Drv.C23
 open ZChain ZChain.Provider
 
@@ -92,7 +92,7 @@ def leafDiff (a b : State) : String :=
   " ".intercalate (sortStrs ds)
 
 def showStatus : Status → String
-  | .ok => "ok" | .fail e => "fail:" ++ e.tag | .reject => "reject" | .panic => "panic"
+  | .ok => "ok" | .fail e => "fail:" ++ e.tag | .reject => "reject"
 
 def answer (w : W) (r : State × Status) : W × String :=
   let d := leafDiff w.st r.1
